@@ -45,6 +45,7 @@ def _sort_uniq(data):
             newcoeff = uniq_result[-1][1]+coeff
             if not newcoeff:
                 uniq_result.pop()
+                last_exp = None
             else:
                 uniq_result[-1] = last_exp, newcoeff
 
